@@ -161,8 +161,9 @@ def st_token_sample(ctx, n, shapes, tokens, label="toksample", lo=3, hi=9):
 KEL = "\u212a"
 CLS_TYPE = ["t", "cargo", "gem", "golang", "maven", "npm", "nuget", "pypi", "deb"]
 CLS_NS = [[], ["acme"], ["@scope"], ["github.com", "phylum-dev"], ["%40scope%2Fevil"], ["\u00dcn\u00ef", "\u01c5" + KEL], ["a:b c&d=e"],
-          ["x" * 30], ["g"], ["org.apache.commons", "sub+group"]]
-CLS_NAME = ["name", "a/b", "n@m", "Foo_.-Bar", "\u039f\u0394\u039f\u03a3", "\u0130" + KEL + "-x", "100%25", "n" * 40, "g:a", "report%2520final",
+          ["x" * 30], ["g"], ["org.apache.commons", "sub+group"], ["example.org", "user", "repo.git", "cmd"],
+          ["example.org", "repo.git", "..", "..", "etc"], [".", "a.git", "."]]
+CLS_NAME = ["name", "a/b", "%2Fetc", "tool.git", "n@m", "Foo_.-Bar", "\u039f\u0394\u039f\u03a3", "\u0130" + KEL + "-x", "100%25", "n" * 40, "g:a", "report%2520final",
             "@types/node", "\u023a\u023a_", "a+b c"]
 CLS_VER = [None, "1.0", "1.0/beta", "v@1", "1.0.0-rc.1+build.5", "\u00fc1", "%2F%2e", "1.0?x#y"]
 CLS_QUALS = [
@@ -523,6 +524,9 @@ def rand_quals_step(r, sep=":"):
         return J(["inst", str(r.below(9)), v()])
     if c == 28:
         return J(["ins", k(), v()])
+    if r.chance(1, 2):
+        # try_insert_typed of a checksum that may be refused (odd / non-hex digits): then nothing may change
+        return J(["tit", hx(r.pick(["sha1", "MD5", "a:b", ""])), hx(r.pick(["00ff", "AB", "zz", "0", "", "0g"]))])
     return J(["get", k()])
 
 
